@@ -299,6 +299,28 @@ pub fn run(mut run: Run) -> i32 {
             singles.push(Node::L(Leaf::Pg(s, vec![])));
         }
     }
+    // MultiPolygons whose members ALL have zero area but different numbers of distinct vertices (a spike of three collinear points, a flat two-point
+    // ring, a single point, a polygon whose hole cancels it): the length-weighted outline rule applies to every member
+    {
+        let spikes: Vec<Vec<IP>> = vec![vec![(0, 0), (1, 0), (2, 0)], vec![(0, 0), (1, 1), (2, 2)], vec![(2, 0), (2, 2), (2, 1)], vec![(0, 2), (2, 2), (1, 2)]];
+        let flats: Vec<Vec<IP>> = vec![vec![(0, 1), (0, 2)], vec![(1, 0), (2, 1)], vec![(0, 0), (2, 0)], vec![(1, 1), (1, 2)]];
+        let sq1: Vec<IP> = vec![(0, 0), (1, 0), (1, 1), (0, 1)];
+        for s in &spikes {
+            for f in &flats {
+                singles.push(Node::L(Leaf::Mpg(vec![(s.clone(), vec![]), (f.clone(), vec![])])));
+                singles.push(Node::L(Leaf::Mpg(vec![(f.clone(), vec![]), (s.clone(), vec![])])));
+                singles.push(Node::L(Leaf::Mpg(vec![(sq1.clone(), vec![sq1.clone()]), (f.clone(), vec![])])));
+                singles.push(Node::L(Leaf::Mpg(vec![(f.clone(), vec![]), (vec![(2, 2), (2, 2), (2, 2)], vec![]), (s.clone(), vec![])])));
+            }
+        }
+        // positive-area polygons with degenerate holes (flat, single point) and an exterior that is not centrally symmetric: the holes take nothing away
+        for shell in [vec![(0, 0), (2, 0), (0, 1)], vec![(0, 0), (2, 0), (2, 2), (0, 1)], vec![(0, 0), (2, 1), (1, 2)]] {
+            for holes in [vec![vec![(0, 0), (1, 0)]], vec![vec![(1, 0), (1, 0), (1, 0)]], vec![vec![(0, 0), (2, 0), (1, 0)], vec![(0, 1), (0, 1)]], vec![vec![(0, 0), (1, 1)], vec![(1, 0), (0, 1)], vec![(2, 0), (2, 0)]]] {
+                singles.push(Node::L(Leaf::Pg(shell.clone(), holes.clone())));
+                singles.push(Node::Gc(vec![Node::L(Leaf::Pg(shell.clone(), holes)), Node::L(Leaf::Ln((0, 0), (2, 2)))]));
+            }
+        }
+    }
     let ns = singles.len();
     run.stage("singles", ns, |idx, acc| check(acc, idx, &singles[idx], "single"));
     // (b) collections over a leaf alphabet
